@@ -1,7 +1,7 @@
 (* C17 -- property theorems only: each is closed by [exact] of a lemma proved elsewhere.
    M, TH, PG, OV are the constants translated from /repo (Gen/Consts.v); [jk] is the value of indeterminate bytes. *)
 From Coq Require Import List NArith ZArith.
-From Muscle Require Import Gen.Consts Cont.StrL0 Cont.StrModel Cont.StrLemmas Cont.StrCore Cont.StrOps Cont.StrRefine Cont.StrProofs.
+From Muscle Require Import Gen.Consts Cont.StrL0 Cont.StrModel Cont.StrLemmas Cont.StrCore Cont.StrDist Cont.StrOps Cont.StrRefine Cont.StrProofs.
 Import ListNotations.
 Local Open Scope N_scope.
 
@@ -114,6 +114,11 @@ Theorem C17_pinned_shrink_refuted :
                   abs pM s = [97; 98; 99] /\ abs pM s' = [97; 98].
 Proof. exact pinned_shrink_refuted. Qed.
 Print Assumptions C17_pinned_shrink_refuted.
+
+(* GetDistanceTo: the repaired early exit (row minimum >= maxResult) computes the capped Levenshtein distance *)
+Theorem C17_distance_code_fixed : forall a b max, distance_code true a b max = l0_distance a b max.
+Proof. exact distance_code_fixed. Qed.
+Print Assumptions C17_distance_code_fixed.
 
 Theorem C17_pinned_distance_refuted :
   exists a b max, l0_distance a b max < max /\ distance_code false a b max = max.
